@@ -998,7 +998,7 @@ fn record_mode(out_path: &str, runs: usize, len: usize, from: usize) {
             // observe - mutate - observe again on ONE object (now and then on a clone taken after the first
             // observations): directories that do not exist yet are looked at, something is written below them, and
             // they are looked at again
-            if rng.chance(1, if profile == "c13" { 7 } else { 10 }) {
+            if rng.chance(1, if profile == "c13" { 7 } else { 12 }) {
                 let loc = rng.chance(1, 3);
                 let mut p = rand_rel(&mut rng, 3);
                 if p.len() < 2 {
@@ -1006,7 +1006,7 @@ fn record_mode(out_path: &str, runs: usize, len: usize, from: usize) {
                 }
                 let mut obs = Vec::new();
                 let mut d = p.clone();
-                for _ in 0..2 {
+                for _ in 0..(if profile == "c13" { 2 } else { 1 }) {
                     if d.is_empty() {
                         break;
                     }
